@@ -222,7 +222,7 @@ def depth_of(kind, defect, mode, order):
 
 
 def lattice_factory(quick, seed):
-    cap = 1000 if quick else 150000
+    cap = 1000 if quick else 20000
 
     def h(ch):
         kind = ch.choose("kind", KINDS)
@@ -294,7 +294,7 @@ def run(ctx):
             rule="leaf = (argument kind, defect, mode, order, complete sequence of lattice draws); weight K^-draws; correct rules must be "
                  "accepted on every leaf, defects rejected on >= 99% of the weight; non-trivial = a defect is planted")
     rep.assumptions = ["the N(0,1) draws are replaced by the K mid-points of K equiprobable bins (K even, K^draws <= %d): the 0.99 bound is decided "
-                       "for this discretised measure" % (1000 if ctx.quick else 150000),
+                       "for this discretised measure" % (1000 if ctx.quick else 20000),
                        "the checker's randomness enters only through numpy.random.randn / standard_normal / normal"]
     return rep
 
